@@ -28,6 +28,18 @@ let checksum (d : n list) =
 
 let sub_mode = 0o160000
 
+(* at most one MISMATCH line per case and 200 per run, at most three PROPFAIL lines per case and 1500 per
+   run (all are counted): the orchestration looks up the case lines of the first 2000 findings only *)
+let mm_case = ref (-1) and mm_printed = ref 0
+let mismatch id what =
+  if !mm_case = id || !mm_printed >= 200 then begin incr n_mismatch; count "mismatch_lines_suppressed" end
+  else begin mm_case := id; incr mm_printed; Conv.mismatch id what end
+let pf_case = ref (-1) and pf_in_case = ref 0 and pf_printed = ref 0
+let propfail id what =
+  if !pf_case <> id then begin pf_case := id; pf_in_case := 0 end;
+  if !pf_in_case >= 3 || !pf_printed >= 1500 then begin incr n_propfail; count "propfail_lines_suppressed" end
+  else begin incr pf_in_case; incr pf_printed; Conv.propfail id what end
+
 let key_of_change c = (string_of_path (match c.c_to, c.c_from with Some e, _ -> e.e_path | None, Some e -> e.e_path | _ -> []), show_change c)
 
 let () =
@@ -76,28 +88,46 @@ let () =
     let benv i = { b_store = (fun h -> Hashtbl.find_opt store (int_of_n h)); b_fail_missing = failmissing; b_modules = mods.(i) } in
     (* ---- replay *)
     let bs = ref [br_zero] in
+    (* the commit that each branch really consumed last (as accepted by the implementation; inherited by
+       fork clones), tracked from the operation list alone: the reference for the parent check *)
+    let last = ref [None] in
     let ops = args (field "ops" c) and steps = args (field "steps" obs) in
     if List.length ops <> List.length steps then failwith "ops/steps length";
+    let prev_bs = ref [] in
     let compare_snapshot here snap =
-      let gl = args snap in
-      if List.length gl <> List.length !bs then mismatch id (here ^ Printf.sprintf " number of branches: impl=%d model=%d" (List.length gl) (List.length !bs))
-      else List.iteri (fun i (g, m) ->
-        match args g with
-        | [pc; has; pt; L keys] ->
-            let where = Printf.sprintf "%s branch %d" here i in
-            if int_of_sx pc <> int_of_n m.br_td.td_commit then
-              mismatch id (Printf.sprintf "%s previous commit: impl=%d model=%d" where (int_of_sx pc) (int_of_n m.br_td.td_commit));
-            (match m.br_td.td_tree, bool_of_sx has with
-             | None, false -> ()
-             | Some t, true ->
-                 (match Hashtbl.find_opt tree_by_hid (int_of_sx pt) with
-                  | Some t' when t = t' -> ()
-                  | _ -> mismatch id (where ^ " previous tree differs"))
-             | _ -> mismatch id (where ^ " previous tree presence differs"));
-            let gk = List.map (function L [h; ch; ln; sm] -> (int_of_sx h, int_of_sx ch, int_of_sx ln, int_of_sx sm) | _ -> failwith "key") keys in
-            let mk = List.sort compare (List.map (fun (h, cb) -> (int_of_n h, int_of_n cb.cb_hash, List.length cb.cb_data, checksum cb.cb_data)) m.br_bc.bc_cache) in
-            if gk <> mk then mismatch id (where ^ " rotating blob cache differs")
-        | _ -> failwith "snapshot") (List.combine gl !bs) in
+      let n, gl = (match args snap with n :: gl -> int_of_sx n, gl | [] -> failwith "snapshot") in
+      if n <> List.length !bs then mismatch id (here ^ Printf.sprintf " number of branches: impl=%d model=%d" n (List.length !bs))
+      else begin
+        let listed = Hashtbl.create 8 in
+        List.iter (fun g ->
+          match args g with
+          | [bi; pc; has; pt; L keys] ->
+              let i = int_of_sx bi in
+              Hashtbl.replace listed i ();
+              let m = List.nth !bs i in
+              let where = Printf.sprintf "%s branch %d" here i in
+              if int_of_sx pc <> int_of_n m.br_td.td_commit then
+                mismatch id (Printf.sprintf "%s previous commit: impl=%d model=%d" where (int_of_sx pc) (int_of_n m.br_td.td_commit));
+              (match m.br_td.td_tree, bool_of_sx has with
+               | None, false -> ()
+               | Some t, true ->
+                   (match Hashtbl.find_opt tree_by_hid (int_of_sx pt) with
+                    | Some t' when t = t' -> ()
+                    | _ -> mismatch id (where ^ " previous tree differs"))
+               | _ -> mismatch id (where ^ " previous tree presence differs"));
+              let gk = List.map (function L [h; ch; ln; sm] -> (int_of_sx h, int_of_sx ch, int_of_sx ln, int_of_sx sm) | _ -> failwith "key") keys in
+              let mk = List.sort compare (List.map (fun (h, cb) -> (int_of_n h, int_of_n cb.cb_hash, List.length cb.cb_data, checksum cb.cb_data)) m.br_bc.bc_cache) in
+              if gk <> mk then mismatch id (where ^ " rotating blob cache differs")
+          | _ -> failwith "snapshot") gl;
+        (* a branch that the implementation did not touch must be untouched in the model
+           (the logger flag of the model has no counterpart in the snapshot) *)
+        List.iteri (fun i m ->
+          if not (Hashtbl.mem listed i) then
+            match List.nth_opt !prev_bs i with
+            | Some m' when m'.br_td = m.br_td && m'.br_bc.bc_cache = m.br_bc.bc_cache -> ()
+            | _ -> mismatch id (Printf.sprintf "%s branch %d: unchanged in the implementation, changed in the model" here i)) !bs
+      end;
+      prev_bs := !bs in
     List.iteri (fun si (o, st) ->
       let here = Printf.sprintf "step#%d %s" si (string_of_sx o) in
       let sa = args st in
@@ -110,6 +140,7 @@ let () =
       | "fork", "fork" ->
           count "forks";
           bs := run_op f !bs (OFork (nat_of_int (int_of_sx (List.nth (args o) 0)), nat_of_int (int_of_sx (List.nth (args o) 1))));
+          last := !last @ List.init (int_of_sx (List.nth (args o) 1)) (fun _ -> List.nth !last (int_of_sx (List.nth (args o) 0)));
           compare_snapshot here (field "all" st)
       | "consume", "consume" ->
           count "consumes";
@@ -121,8 +152,9 @@ let () =
           let br = List.nth !bs b in
           let tdk = atom (List.hd (args (field "td" st))) in
           let model = td_consume f br.br_td cm dt in
-          (* ---- property: the parent check (judged from the implementation's own previous state) *)
-          let must_refuse = pc <> 0 && not (List.mem pc (List.map (fun p -> chash.(p)) parents.(ci))) in
+          (* ---- property: the parent check, judged against the commit that the branch really consumed last *)
+          let must_refuse = (match List.nth !last b with Some p -> not (List.mem p parents.(ci)) | None -> false) in
+          ignore pc;
           if must_refuse then count "wrong_parent_steps";
           if must_refuse && tdk <> "errparent" then
             propfail id (here ^ " parent-refusal: the previous commit of the branch is not among the parents, but the commit was not refused (" ^ tdk ^ ")")
@@ -132,11 +164,12 @@ let () =
             if not (bool_of_sx (List.nth (args (field "td" st)) 1)) then
               propfail id (here ^ " parent-refusal: an error was returned together with a result");
             (* the per-branch memory must not move *)
-            (match List.nth (args (field "all" st)) b with
-             | L [_; pc'; has'; pt'; _] ->
-                 if int_of_sx pc' <> pc || bool_of_sx has' <> phas || int_of_sx pt' <> pt then
-                   propfail id (here ^ " parent-refusal: the branch memory changed although the commit was refused")
-             | _ -> failwith "snapshot")
+            List.iter (fun g ->
+              match g with
+              | L [_; bi; pc'; has'; pt'; _] when int_of_sx bi = b ->
+                  if int_of_sx pc' <> pc || bool_of_sx has' <> phas || int_of_sx pt' <> pt then
+                    propfail id (here ^ " parent-refusal: the branch memory changed although the commit was refused")
+              | _ -> ()) (List.tl (args (field "all" st)))
           end;
           (* ---- correspondence of the result kind *)
           (match model, tdk with
@@ -146,6 +179,11 @@ let () =
            | _ -> mismatch id (Printf.sprintf "%s TreeDiff result kind: impl=%s model=%s" here tdk
                                  (match model with Ok _ -> "ok" | Err e -> "err" ^ string_of_int (int_of_n e) | Panic -> "panic")));
           if tdk = "ok" then begin
+            (match List.nth !last b with
+             | Some p when phas && (match args (List.nth (args (field "trees" obs)) p) with thid :: _ -> int_of_sx thid <> pt | [] -> true) ->
+                 propfail id (here ^ " parent-refusal: the commit was diffed against a tree that is not the tree of the branch's previous commit")
+             | _ -> ());
+            last := List.mapi (fun i x -> if i = b then Some ci else x) !last;
             let gcs = List.map change_of_sx (args (field "changes" st)) in
             (match model with
              | Ok (_, mcs) -> if mcs <> gcs then mismatch id (here ^ " changes differ: impl=" ^ show_changes gcs ^ " model=" ^ show_changes mcs)
